@@ -10,6 +10,7 @@ PROPS_FILE = 'coq/Props/C14.v'
 RUN_MODULE = 'QCE.C14.Run'
 COQ_HEADER = 'From Gen Require Import Noise.\nFrom QCE Require Import C14.Model.'
 IMPL = 'harness/impl/c14_impl.py'
+REPEAT_REVERSED = True     # every case is evaluated twice per run, the second time in reversed order in the same processes
 SHARD = 60
 TRUSTED = [
     'Gen/Noise.v is regenerated from factory_pauli_noise.py, factory_measurement_noise.py, noise_factory_manager.py, '
